@@ -154,6 +154,18 @@ func (s *snap) scanHalf() {
 	sort.Strings(s.HalfFile)
 }
 
+// tgIntact reports whether the transaction is intact in one of the state's WAL files.
+func (s *snap) tgIntact(tgid int64) bool {
+	for _, msgs := range s.walImages() {
+		for _, mm := range msgs {
+			if mm.Kind == "tg" && mm.Intact && mm.TGID == tgid {
+				return true
+			}
+		}
+	}
+	return false
+}
+
 // walImages returns the decoded WAL files of the state.
 func (s *snap) walImages() map[string][]walMsg {
 	out := map[string][]walMsg{}
@@ -188,8 +200,9 @@ type slotKey struct {
 }
 
 type slotWrite struct {
-	W *winfo
-	V int64
+	W     *winfo
+	V     int64   // the request's last row for the interval
+	Inter []int64 // earlier rows of the same request for the same interval (overwritten inside the request)
 }
 
 // model of the history: per fixed slot its writers in S order; per variable record its writer.
@@ -216,18 +229,21 @@ func buildModel(rec *Recording) *model {
 			}
 			// effective rows of this request: last row per slot
 			last := map[int64]int64{}
+			inter := map[int64][]int64{}
 			var order []int64
 			for _, r := range b.Rows {
 				s := hist.IntervalStart(b.Key, r.T)
-				if _, ok := last[s]; !ok {
+				if prev, ok := last[s]; !ok {
 					order = append(order, s)
+				} else {
+					inter[s] = append(inter[s], prev)
 				}
 				last[s] = r.V
 				m.fixedV[r.V] = true
 			}
 			for _, s := range order {
 				k := slotKey{b.Key, s}
-				m.slots[k] = append(m.slots[k], slotWrite{w, last[s]})
+				m.slots[k] = append(m.slots[k], slotWrite{w, last[s], inter[s]})
 			}
 		}
 	}
@@ -394,6 +410,27 @@ func (m *model) judge(s *snap, r *Recovered) *verdict {
 			}
 			if len(ack) > 0 {
 				v.add(&v.C01, "violation", "", fmt.Sprintf("%s: %s interval %d holds A=%d, expected the last acknowledged write (one of %v)", where, sk.Key, sk.Slot, row[2], keys(cand)))
+			}
+			// an earlier row of an in-flight request for the same interval: only explicable when the
+			// request was logged as several transactions (F-SPLIT) and the one with its last row is not
+			// intact in the crash state's WAL
+			splitInter := false
+			for _, x := range inf {
+				for _, iv := range x.Inter {
+					if iv == row[2] {
+						started = true
+						tEff, ok1 := m.rec.TGOf[x.V]
+						tInt, ok2 := m.rec.TGOf[iv]
+						if ok1 && ok2 && tEff != tInt && m.rec.H.Mode == "background" && !s.tgIntact(tEff) {
+							splitInter = true
+						} else {
+							v.add(&v.C02, "violation", "", fmt.Sprintf("%s: %s interval %d holds A=%d, an overwritten row of in-flight request %d (its last row for the interval is %d)", where, sk.Key, sk.Slot, row[2], x.W.ID, x.V))
+						}
+					}
+				}
+			}
+			if splitInter {
+				v.add(&v.C02, "known", "F-SPLIT", fmt.Sprintf("%s: %s interval %d holds A=%d, an earlier row of in-flight request whose later rows were logged in a second transaction that was not committed before the crash", where, sk.Key, sk.Slot, row[2]))
 			}
 			if !started {
 				v.add(&v.C02, "violation", "", fmt.Sprintf("%s: %s interval %d holds A=%d which no issued write put there", where, sk.Key, sk.Slot, row[2]))
